@@ -2,6 +2,8 @@
    (205-239) and the functions it dispatches to, statement by statement:
      lower_field_access 250-276, lower_method_access 278-323, lower_unary 325-341, lower_tuple 343-381,
      lower_fn_call 383-475, lower_binary 477-591, lower_if_else 593-651, lower_if_else_or_block 653-661,
+     lower_match 884-957 and the Guard case of lower_if_else, with lower_matching_pattern 663-882 taken from
+     theories/C01pat/Lower.v (`lower_guard`, embedded statement by statement: `guard` below),
      lower_lambda 1071-1136 with create_synthetic_lambda_function 959-1069,
      lower_block 1138-1170 (Declaration with an Id / Wildcard / flat Tuple pattern - the Tuple arm of
      lower_matching_pattern 670-717 with Id / Wildcard elements -, Expression, final expression).
@@ -33,8 +35,35 @@
 From Coq Require Import ZArith NArith List Bool.
 Import ListNotations.
 From SV Require Import Common.Int32 C01expr.Syntax C01expr.SrcSem C01expr.HirSem.
+From SV Require C01pat.Sem C01pat.Lower.
 
 Inductive version := Pinned | Seeded7.
+
+(* ------------------------------------------------------------------ patterns: C01pat's model, embedded *)
+(* `lower_matching_pattern` (663-882) is modelled in theories/C01pat/Lower.v over a statement type of its own; its
+   output is embedded here form by form.  (SPanic is lower_match's fall-through there; the match of this file builds
+   the real call, so the embedding never meets it.) *)
+Definition emb_e (e : C01pat.Syntax.expr) : hexpr :=
+  match e with C01pat.Syntax.EInt z => HInt z | C01pat.Syntax.EVar x => HVar x end.
+Definition emb_fa (fa : name * C01pat.Syntax.expr * C01pat.Syntax.expr) : name * hexpr * hexpr :=
+  (fst (fst fa), emb_e (snd (fst fa)), emb_e (snd fa)).
+Fixpoint emb (s : C01pat.Syntax.stmt) : hstmt :=
+  let fix go (l : list C01pat.Syntax.stmt) : list hstmt := match l with [] => [] | x :: t => emb x :: go t end in
+  match s with
+  | SIndex x e i => HIndex x (emb_e e) i
+  | SDestr e tag bs s1 s2 fas => HDestr (emb_e e) tag bs (go s1) (go s2) (map emb_fa fas)
+  | SIf c s1 s2 fas => HIf (emb_e c) (go s1) (go s2) (map emb_fa fas)
+  | SDecl x => HDecl x
+  | SAssign x e => HAssign x (emb_e e)
+  | SPanic _ => HUnreachable
+  end.
+Definition embs (ss : list C01pat.Syntax.stmt) : list hstmt := map emb ss.
+(* the matched expression as the pattern model sees it.  A string or class-object scrutinee has no counterpart
+   there; by Syntax.site_ok the pattern is then a wildcard (which does not mention the expression) or structured
+   (which a string / class object cannot match: an ill-typed situation) *)
+Definition pe (r : hexpr) : C01pat.Syntax.expr :=
+  match r with HVar x => C01pat.Syntax.EVar x | HInt z => C01pat.Syntax.EInt z | _ => C01pat.Syntax.EInt 0 end.
+
 
 Notation scope := (list (name * name)) (only parsing).
 Notation scopes := (list (list (name * name))) (only parsing).
@@ -143,6 +172,11 @@ Section Lower.
     let base := [rev (map (fun p => (p, p)) (params ++ map (body_name n1) caps))] in
     if memb this_name caps then insert base this_name (tmp n1) else base.
 
+  (* one pattern site (a `let p`, the guard of an `if let`, a match arm): the LateInitDeclarations of the keys, then
+     the statements of the pattern, and its condition = C01pat.Lower.lower_guard on the lowered scrutinee *)
+  Definition guard (p : pat) (bs : list name) (r : hexpr) (n : nat) : list hstmt * hexpr * nat :=
+    let '(ss, c, n1) := C01pat.Lower.lower_guard tmp p bs (pe r) n in (embs ss, emb_e c, n1).
+
   Fixpoint lower (e : expr) (cx : list (list (name * name))) (n : nat) {struct e} : res :=
     match e with
     | EInt z => ([], HInt z, n, cx)
@@ -224,6 +258,26 @@ Section Lower.
     | EBlock b =>
         let '(s, r, n1, cx1) := lower_blk b (push cx) n in
         (s, r, n1, pop cx1)
+    | EMatch e cs =>
+        (* lower_match 884-957: the matched expression, the collector of the fall-through panic, then the arms *)
+        let '(se, re, n1, cx1) := lower e cx n in
+        let '(ss, r, n2, cx2) := lower_arms cs re (tmp n1) cx1 (S n1) in
+        (se ++ ss, r, n2, cx2)
+    | EIfLet p bs e e1 e2 =>
+        (* lower_if_else with a Guard: as EIf, the condition being the one the pattern returns; the keys are bound
+           in the scope pushed at the top (visible while both branches are lowered) *)
+        let '(se, re, n1, cx1) := lower e (push cx) n in
+        let '(gs, gc, n2) := guard p bs re n1 in
+        let cx2 := insert_all cx1 bs n1 in
+        if is_lit gc 1 then
+          let '(s, r, n3, cx3) := lower e1 cx2 n2 in (se ++ gs ++ s, r, n3, cx3)       (* early return: no pop_scope *)
+        else if is_lit gc 0 then
+          let '(s, r, n3, cx3) := lower e2 cx2 n2 in (se ++ gs ++ s, r, n3, cx3)       (* early return: no pop_scope *)
+        else
+          let fv := tmp n2 in
+          let '(s1, r1, n3, cx3) := lower e1 cx2 (S n2) in
+          let '(s2, r2, n4, cx4) := lower e2 cx3 n3 in
+          (se ++ gs ++ [HIf gc s1 s2 [(fv, r1, r2)]], HVar fv, n4, pop cx4)
     | ELambda l caps params body =>
         (* lower_lambda 1071-1136: the captured variables resolved in the order of the map; the closure variable is
            drawn first, then (if anything is captured) the context variable and its StructInit; then
@@ -248,6 +302,19 @@ Section Lower.
         let '(s1, r1, n1, cx1) := lower e cx n in
         let '(s2, r2, n2, cx2) := lower_args t cx1 n1 in
         (s1 ++ s2, r1 :: r2, n2, cx2)
+    end
+  with lower_arms (cs : arms) (re : hexpr) (coll : name) (cx : list (list (name * name))) (n : nat) {struct cs} : res :=
+    (* `for case in expression.cases.iter().rev()`: the LAST arm is lowered first (structural recursion: the tail
+       first), each arm wraps what has been built in the else branch of its IfElse; the innermost else is the call
+       Process.panic(0, "") into the collector *)
+    match cs with
+    | ANil => ([HCall (HCFn FPanic) [ZERO; HStr []] (Some coll)], HVar coll, n, cx)
+    | ACons p bs body t =>
+        let '(acc_s, acc_e, n1, cx1) := lower_arms t re coll cx n in
+        let ft := tmp n1 in
+        let '(gs, gc, n2) := guard p bs re (S n1) in
+        let '(sb, rb, n3, cx3) := lower body (insert_all (push cx1) bs (S n1)) n2 in
+        (gs ++ [HIf gc sb acc_s [(ft, rb, acc_e)]], HVar ft, n3, pop cx3)
     end
   with lower_blk (b : blk) (cx : list (list (name * name))) (n : nat) {struct b} : res :=
     match b with
@@ -274,6 +341,12 @@ Section Lower.
         let pat := tuple_stmts r1 (bn_of bs n1) els 0 (n1 + k) m in
         let '(s2, r2, n2, cx2) := lower_blk b (insert_all cx1 bs n1) (n1 + k + m) in
         (s1 ++ decls ++ pat ++ s2, r2, n2, cx2)
+    | BLetP p bs e b =>
+        (* the general Declaration: assigned expression, declarations + pattern (condition dropped), the rest *)
+        let '(s1, r1, n1, cx1) := lower e cx n in
+        let '(gs, _, n2) := guard p bs r1 n1 in
+        let '(s2, r2, n3, cx2) := lower_blk b (insert_all cx1 bs n1) n2 in
+        (s1 ++ gs ++ s2, r2, n3, cx2)
     | BExp e b =>
         let '(s1, _, n1, cx1) := lower e cx n in
         let '(s2, r2, n2, cx2) := lower_blk b cx1 n1 in
@@ -317,11 +390,11 @@ Definition extB (B : list name) (cx cx' : list (list (name * name))) : Prop :=
 Section Vocabulary.
   Variable tmp : nat -> name.
 
-  (* y is not a temporary drawn from counter n on / between n and n' *)
+  (* y is not a temporary drawn from counter n on *)
   Definition low (n : nat) (y : name) : Prop := forall i, (n <= i)%nat -> tmp i <> y.
-  Definition offr (n n' : nat) (y : name) : Prop := forall i, (n <= i)%nat -> (i < n')%nat -> tmp i <> y.
-  (* the statements drawn between n and n' write at most the temporaries drawn there *)
-  Definition frame (n n' : nat) (s s' : name -> option value) : Prop := forall y, offr n n' y -> s' y = s y.
+  (* the statements lowered from counter n on write at most temporaries drawn from n on (n' = the counter afterwards;
+     the pattern statements taken from C01pat come with this bound only) *)
+  Definition frame (n n' : nat) (s s' : name -> option value) : Prop := forall y, low n y -> s' y = s y.
   (* a result expression that no later statement overwrites *)
   Definition stable (n : nat) (r : hexpr) : Prop := match r with HVar y => low n y | _ => True end.
 
@@ -395,6 +468,10 @@ Section Parts.
     | BLetT bs els e b =>
         let '(s1, _, n1, cx1) := lower ver tmp e cx n in
         s1 :: parts_blk b (insert_all tmp cx1 bs n1) (n1 + length bs + length els)
+    | BLetP p bs e b =>
+        let '(s1, r1, n1, cx1) := lower ver tmp e cx n in
+        let '(_, _, n2) := guard tmp p bs r1 n1 in
+        s1 :: parts_blk b (insert_all tmp cx1 bs n1) n2
     | BExp e b => let '(s1, _, n1, cx1) := lower ver tmp e cx n in s1 :: parts_blk b cx1 n1
     end.
 
@@ -434,6 +511,8 @@ Section Parts.
           let '(s1, _, n2, cx2) := lower ver tmp e1 cx1 (S n1) in
           let '(s2, _, _, _) := lower ver tmp e2 cx2 n2 in [sc; s1; s2]
     | EBlock b => parts_blk b (push cx) n
+    | EMatch e _ => let '(se, _, _, _) := lower ver tmp e cx n in [se]      (* the arms: C01pat's lower_match theorems *)
+    | EIfLet _ _ e _ _ => let '(se, _, _, _) := lower ver tmp e (push cx) n in [se]
     | ELambda _ _ _ _ => []
     end.
 
